@@ -21,20 +21,24 @@ def deci(xs: List[int], frac_rng: Optional[random.Random] = None) -> List[int]:
 
 
 def make_input(rng: random.Random, n_refs: int = 2, n_qry: int = 8, ref_labels=(80, 200), kinds=None,
-               decimals: bool = True, repeats: bool = False, lattice: int = 0) -> Dict:
+               decimals: bool = True, repeats: bool = False, lattice: int = 0, small_ids: bool = False) -> Dict:
+    """small_ids: references 1..n and queries 1..m (query ids collide with reference ids)"""
     refs = []
+    shared = {}
     for rid in range(1, n_refs + 1):
         xs = gen.make_reference(rng, rng.randint(*ref_labels), min_gap=rng.choice([2000, 2500]),
                                 mean_gap=rng.choice([9000, 11000]), repeats=repeats, lattice=lattice)
         dx = deci(xs, rng if decimals else None)
-        refs.append({"id": rid * 3 - 1, "len": dx[-1] + rng.randint(10, 200000), "x": dx, "bp": xs})
+        refs.append({"id": rid if small_ids else rid * 3 - 1, "len": dx[-1] + rng.randint(10, 200000), "x": dx, "bp": xs})
     kinds = kinds or ["exact", "noisy", "stretched", "dropped", "indel", "chimeric", "mirror", "partial", "junk",
                       "tiny"]
     qrys = []
-    qid = rng.randint(1, 50)
+    qid = 1 if small_ids else rng.randint(1, 50)
     for k in range(n_qry):
         kind = kinds[k % len(kinds)] if k < len(kinds) else rng.choice(kinds)
         ref = rng.choice(refs)
+        if small_ids and k < 2 and len(refs) >= 2:
+            ref = refs[1 - k]          # query 1 lies on reference 2 and query 2 on reference 1 (ids cross over)
         xs = ref["bp"]
         n = len(xs)
         w = rng.randint(15, min(45, n - 10))
@@ -87,6 +91,30 @@ def make_input(rng: random.Random, n_refs: int = 2, n_qry: int = 8, ref_labels=(
             if kind == "swapped":
                 a, b = b, a
             coords = a + [a[-1] + gap + v for v in b]
+        elif kind == "samestart":
+            # several molecules of one input that START AT THE SAME reference label (same seed bin): the first is a long
+            # plain copy, the later ones are shorter and continue, after a 17-30 kb deletion, with a tail
+            if "samestart" not in shared:
+                r0 = refs[0]
+                s0 = rng.randint(4, max(5, len(r0["bp"]) - 215))
+                shared["samestart"] = (r0, s0)
+                ref = r0
+                xs = ref["bp"]
+                coords, truth = gen.cut_query(rng, xs, s0, min(len(xs) - 2, s0 + rng.randint(198, 208)))
+            else:
+                ref, s0 = shared["samestart"]
+                xs = ref["bp"]
+                # head (aligned by the shared seed), then a natural reference gap >= 18.5 kb shortened in the molecule so
+                # that the tail lies 17.5 kb (just beyond the 16 kb refinement margin) off the head's diagonal, then a
+                # tail worth more than the join penalty but shorter than the head
+                cand = sorted((xs[j] - xs[j - 1], j) for j in range(s0 + 75, min(s0 + 130, len(xs) - 72))
+                              if xs[j] - xs[j - 1] >= 18500)
+                j = cand[0][1] if cand else s0 + 80          # the smallest such gap: the smallest join penalty
+                ntail = rng.randint(60, 66)
+                a, _ = gen.cut_query(rng, xs, s0, j)
+                b, _ = gen.cut_query(rng, xs, j, min(len(xs) - 2, j + ntail))
+                qgap = max(1000, (xs[j] - xs[j - 1]) - 17500)
+                coords = a + [a[-1] + qgap + v for v in b]
         elif kind == "flankdup":
             # F + M + F: both flanks are noise-free copies of the SAME reference window F (M is a later window):
             # the two second-pass fragments get exactly equal confidence (a tie between tasks of one query)
@@ -124,13 +152,13 @@ def make_input(rng: random.Random, n_refs: int = 2, n_qry: int = 8, ref_labels=(
             coords = sorted(rng.sample(range(0, 30000), rng.choice([1, 2, 3])))
         else:
             raise ValueError(kind)
-        if rng.random() < 0.35 and kind not in ("mirror", "tiny", "flankdup"):
+        if rng.random() < 0.35 and kind not in ("mirror", "tiny", "flankdup", "samestart"):
             coords = gen.mirror_query(coords, coords[-1] + coords[0])
             mirrored = True
         dx = deci(coords, rng if decimals else None)
         qrys.append({"id": qid, "len": dx[-1] + rng.choice([1, 10, 3000, 50000]), "x": dx, "kind": kind,
                      "ref": ref["id"], "mirrored": mirrored})
-        qid += rng.randint(1, 9)
+        qid += 1 if small_ids else rng.randint(1, 9)
     return {"refs": refs, "qrys": qrys}
 
 
